@@ -112,6 +112,23 @@ S cos_6(const S & x2)
   }
 }
 
+template<typename S>
+S sin_7(const S & x2)
+{
+  using std::sin, std::sqrt;
+
+  if (x2 > S(eps2_tails)) {
+    const S x = sqrt(x2);
+    return (sin(x) - x + x2 * x / S(6) - x2 * x2 * x / S(120)) / (x2 * x2 * x2 * x);
+  } else {
+    // Horner form of the series, 9 terms
+    return -S(1) / S(5040)
+      * (S(1) - x2 / S(72) * (S(1) - x2 / S(110) * (S(1) - x2 / S(156)
+        * (S(1) - x2 / S(210) * (S(1) - x2 / S(272) * (S(1) - x2 / S(342)
+        * (S(1) - x2 / S(420) * (S(1) - x2 / S(506)))))))));
+  }
+}
+
 }  // namespace detail
 
 SMOOTH_END_NAMESPACE
